@@ -1,9 +1,9 @@
-\* thorough: F=8, inputs of 0..586 keys
+\* thorough: F=8, inputs of 0..586 keys (Reentrant is checked for F = 2, 3, 4 and the gap models only: its cost grows with N^2)
 SPECIFICATION Spec
 CONSTANTS F = 8
   Variant = "asCoded"
   Steps = {2}
   MaxN = 586
-INVARIANTS Valid Faithful FaithfulAnyReader Enumerates EarlyExit Reentrant ReadersAgree EmptyNoTree RejectsExactly MachineIsFunction TailShape NothingLost TailValid Bounded CapIsDead RootDepthPositive
+INVARIANTS Valid Faithful FaithfulAnyReader Enumerates EarlyExit ReadersAgree EmptyNoTree RejectsExactly MachineIsFunction TailShape NothingLost TailValid Bounded CapIsDead RootDepthPositive
 PROPERTIES Terminates
 CHECK_DEADLOCK FALSE
